@@ -19,7 +19,7 @@ func init() {
 
 func runC17(c *Ctx) []Violation {
 	const warm = 64
-	o := world.GenOpts{MinRecs: 3, MaxRecs: 6, Encodings: false, NoSiblingContext: true}
+	o := world.GenOpts{MinRecs: 3, MaxRecs: 6, Encodings: false, NoSiblingContext: true, TwoFilters: true}
 	// one world in six has a target filter that compares a field with a number: a record whose field is
 	// not a number makes the filter itself fail (on the tree as it stands that ends the transform)
 	o.NumericFilter = c.T.Chance("c17.numeric-filter", 1, 6)
@@ -169,8 +169,15 @@ func runC17(c *Ctx) []Violation {
 		fmt.Sprintf("reachable nodes ignoring text nodes directly under ancestors: warm-up maximum %d, last %d", maxE, lastE),
 		"schema: " + string(w.Schema), fmt.Sprintf("first 600 input bytes: %q", string(ww.Input[:minInt(600, len(ww.Input))]))}
 	if firstBadE >= 0 {
-		return []Violation{viol("C17.growth", fmt.Sprintf("%s: the tree reachable from a delivered record grows with the number of records delivered (%d nodes within the warm-up, %d at record %d)", w.Format, maxE, lastE, delivered),
-			append(det, fmt.Sprintf("first record exceeding the warm-up maximum: #%d", firstBadE))...)}
+		v := viol("C17.growth", fmt.Sprintf("%s: the tree reachable from a delivered record grows with the number of records delivered (%d nodes within the warm-up, %d at record %d)", w.Format, maxE, lastE, delivered),
+			append(det, fmt.Sprintf("first record exceeding the warm-up maximum: #%d", firstBadE))...)
+		// known finding: only the last filter of a stream xpath's last step is held back until the
+		// candidate is complete; an element that fails an earlier one is never a candidate and stays
+		if (w.Format == "xml" || w.Format == "json") && w.Tag("target.two-filters-on-the-last-step") == "1" && c.FindingOpen("stream-xpath-two-filters-rejected-element-retained") {
+			v.Finding = "stream-xpath-two-filters-rejected-element-retained"
+			v.What = w.Format + ": stream xpath with two filters on its last step: an element that fails the first filter is never a stream candidate, is never removed, and the reachable tree grows by one element per rejected record"
+		}
+		return []Violation{v}
 	}
 	if firstBadS >= 0 {
 		v := viol("C17.growth-text", fmt.Sprintf("%s: text nodes accumulate under the ancestors of the records (%d reachable nodes within the warm-up, %d at record %d)", w.Format, maxS, lastS, delivered),
